@@ -191,7 +191,8 @@ def _draw_batch(ctx, tier, knob_on):
         idx = [ch.draw(len(pool), "event") for _ in range(n)]
         psize = 1 + ch.draw(max(1, n), "partition_size")
     else:
-        n = (100, 99, 101, 199, 200, 201, 250, 300, 400, 301)[ch.draw(10, "N_literal")]
+        # 1001 / 1203: more than ten partitions (two-digit partition indices)
+        n = (100, 99, 101, 199, 200, 201, 250, 300, 400, 301, 1001, 1203)[ch.draw(12, "N_literal")]
         start = ch.draw(len(pool), "event_start")
         stride = 1 + ch.draw(7, "event_stride")
         idx = [(start + k * stride) % len(pool) for k in range(n)]
@@ -425,9 +426,17 @@ def scn_real(ctx):
     ctx.describe.update(real_scheduler=name, workers=nw, N=n, cloud=kind, det_alt=det_alt, poison_pos=ppos)
     ctx.probes[f"real_{name}"] += 1
 
+    # spawned workers are separate interpreters with their own string-hash seed: give them one
+    # that differs from this interpreter's (dask would otherwise pin 6640 or let them inherit)
+    child_hash = str(5000 + ch.draw(1000, "worker_hashseed"))
+
     def once():
+        import os
+
         out = sys.stdout
         sys.stdout = _NullOut()
+        saved_hs = os.environ.get("PYTHONHASHSEED")
+        os.environ["PYTHONHASHSEED"] = child_hash
         try:
             with dask.config.set(scheduler=name, num_workers=nw, **{"multiprocessing.initializer": env.child_init}):
                 try:
@@ -436,6 +445,10 @@ def scn_real(ctx):
                     return None, e
         finally:
             sys.stdout = out
+            if saved_hs is None:
+                os.environ.pop("PYTHONHASHSEED", None)
+            else:
+                os.environ["PYTHONHASHSEED"] = saved_hs
 
     def verdict():
         res, exc = once()
